@@ -228,3 +228,21 @@ package transform
 //@   loop 1 invariant [members] forall e: object_ExtendedSpatialID :: has(extendedSpatialIDsMap, e) <==> ((exists k :: 0 <= k && k < $i0 && e.hZoom == request[k].hZoom && e.x == request[k].x && e.y == request[k].y && e.vZoom == outputVZoom && wzmin(request[k].z, request[k].vZoom, outputVZoom, zBaseExponent, zBaseOffset) <= e.z && e.z <= wzmax(request[k].z, request[k].vZoom, outputVZoom, zBaseExponent, zBaseOffset)) || (e.hZoom == request[$i0].hZoom && e.x == request[$i0].x && e.y == request[$i0].y && e.vZoom == outputVZoom && zMin <= e.z && e.z < z))
 //@   loop 2 invariant len(extendedSpatialIDs) == $n && (forall k :: 0 <= k && k < $n ==> extendedSpatialIDs[k] == $key(k))
 //@ end
+
+//@ -- C10: expanding an extended ID with different zooms: the descendants on the coarser axis, at the finer zoom,
+//@ -- in enumeration order, hence duplicate-free and 4^d resp. 2^d of them
+//@ define xw(h, v) = ite(v >= h, pow2(v - h), 1)
+//@ func ConvertExtendedSpatialIDToSpatialIDs
+//@   props C10 C13 C15
+//@   split extendedSpatialID.hZoom 0..35
+//@   split extendedSpatialID.vZoom 0..35
+//@   quickstride 16
+//@   requires extendedSpatialID != nil
+//@   requires 0 <= extendedSpatialID.x && extendedSpatialID.x < pow2(extendedSpatialID.hZoom) && 0 <= extendedSpatialID.y && extendedSpatialID.y < pow2(extendedSpatialID.hZoom) && 0 - pow2(extendedSpatialID.vZoom) <= extendedSpatialID.z && extendedSpatialID.z < pow2(extendedSpatialID.vZoom)
+//@   ensures [finer-vertical] extendedSpatialID.hZoom < extendedSpatialID.vZoom ==> len(r0) == xw(extendedSpatialID.hZoom, extendedSpatialID.vZoom) * xw(extendedSpatialID.hZoom, extendedSpatialID.vZoom) && (forall k :: 0 <= k && k < len(r0) ==> r0[k] == sid(extendedSpatialID.vZoom, extendedSpatialID.z, extendedSpatialID.x * xw(extendedSpatialID.hZoom, extendedSpatialID.vZoom) + fdiv(k, xw(extendedSpatialID.hZoom, extendedSpatialID.vZoom)), extendedSpatialID.y * xw(extendedSpatialID.hZoom, extendedSpatialID.vZoom) + fmod(k, xw(extendedSpatialID.hZoom, extendedSpatialID.vZoom))))
+//@   ensures [finer-horizontal] extendedSpatialID.hZoom > extendedSpatialID.vZoom ==> len(r0) == xw(extendedSpatialID.vZoom, extendedSpatialID.hZoom) && (forall k :: 0 <= k && k < len(r0) ==> r0[k] == sid(extendedSpatialID.hZoom, extendedSpatialID.z * xw(extendedSpatialID.vZoom, extendedSpatialID.hZoom) + k, extendedSpatialID.x, extendedSpatialID.y))
+//@   ensures [equal] extendedSpatialID.hZoom == extendedSpatialID.vZoom ==> len(r0) == 1 && r0[0] == sid(extendedSpatialID.hZoom, extendedSpatialID.z, extendedSpatialID.x, extendedSpatialID.y)
+//@   loop 0 invariant xMin <= x && x <= xMax + 1 && len(spatialIds) == (x - xMin) * xw(extendedSpatialID.hZoom, extendedSpatialID.vZoom) && (forall k :: 0 <= k && k < len(spatialIds) ==> spatialIds[k] == sid(extendedSpatialID.vZoom, extendedSpatialID.z, xMin + fdiv(k, xw(extendedSpatialID.hZoom, extendedSpatialID.vZoom)), yMin + fmod(k, xw(extendedSpatialID.hZoom, extendedSpatialID.vZoom))))
+//@   loop 1 invariant xMin <= x && x <= xMax && yMin <= y && y <= yMax + 1 && len(spatialIds) == (x - xMin) * xw(extendedSpatialID.hZoom, extendedSpatialID.vZoom) + (y - yMin) && (forall k :: 0 <= k && k < len(spatialIds) ==> spatialIds[k] == sid(extendedSpatialID.vZoom, extendedSpatialID.z, xMin + fdiv(k, xw(extendedSpatialID.hZoom, extendedSpatialID.vZoom)), yMin + fmod(k, xw(extendedSpatialID.hZoom, extendedSpatialID.vZoom))))
+//@   loop 2 invariant len(spatialIds) == $i && (forall k :: 0 <= k && k < $i ==> spatialIds[k] == sid(extendedSpatialID.hZoom, extendedSpatialID.z * xw(extendedSpatialID.vZoom, extendedSpatialID.hZoom) + k, extendedSpatialID.x, extendedSpatialID.y))
+//@ end
